@@ -10,7 +10,7 @@
     assumption (Section hypothesis [root_confines]), exercised by the
     hostile-file-list matrix of the harness. *)
 From Coq Require Import ZArith String List Bool.
-From RV Require Import Model.Bytes Model.Flist Model.Tree Model.GenOps Proofs.ConfineProofs Gen.FsSites.
+From RV Require Import Model.Bytes Model.Flist Model.Tree Model.GenOps Model.Root Proofs.ConfineProofs Proofs.RootProofs Gen.FsSites.
 Import ListNotations.
 
 (** (1) Whatever the file list, destination state and options: each
@@ -38,6 +38,23 @@ Theorem every_fs_call_site_is_root_relative :
   forallb site_ok fs_sites = true /\ bind_path_ok = true /\ subdir_ok = true.
 Proof. exact inventory_ok. Qed.
 
+(** (3) os.Root itself: [root_resolve] is a model of its resolution (component
+    walk, ".." by restart, relative links spliced in, absolute links and ".."
+    at the root refused, a final link followed or not per operation), checked
+    against the real os.Root on random trees by the harness.  In the model a
+    successful resolution — whatever the name and whatever relative,
+    absolute, dangling, cyclic or ".."-laden symbolic links the tree holds —
+    ends at a directory of the tree or at an entry name directly inside one. *)
+Theorem root_resolution_stays_inside :
+  forall t follow_last name p,
+    (exists cs, t = RDir cs) -> root_resolve t follow_last name = inl p ->
+    is_dir_at t p \/ exists d c, p = (d ++ [c])%list /\ is_dir_at t d.
+Proof. exact root_resolve_inside. Qed.
+
+Theorem dotdot_at_the_root_is_refused :
+  forall f t follow_last rest, resolve (S f) t follow_last [] (dotdot :: rest) = inr EEscapes.
+Proof. exact dotdot_at_root_escapes. Qed.
+
 (** Non-vacuity: a plain-path call would be rejected by the inventory check. *)
 Example plain_path_call_rejected :
   site_ok ("internal/receiver/generator.go:setPerms", "pkg", "os.Chmod", "filepath.Join(rt.Dest, f.Name), perm")%string = false.
@@ -46,3 +63,4 @@ Proof. vm_compute. reflexivity. Qed.
 Print Assumptions operations_name_listed_paths_only.
 Print Assumptions session_confined_given_root.
 Print Assumptions every_fs_call_site_is_root_relative.
+Print Assumptions root_resolution_stays_inside.
